@@ -36,8 +36,17 @@ Findings on the current tree (open; known_findings.d/C14.json, findings_inbox/C1
         (httputil._parse_header drops value-less parameters): its second message back-references the
         first and a peer that reset its inflater cannot decode it
 
-Sensitivity (quick tier, seed 1, scratch copy of /repo/tornado, one mutant at a time): see the list at
-the end of this docstring.
+Sensitivity (quick tier, seed 1, scratch copy of /repo/tornado, one mutant at a time; all caught):
+  M1 _write_frame: `data_len <= 0xFFFF` -> `< 0xFFFF` (65535 sent in the 64-bit form) -> C14.tornado_frames_undecodable (nonminimal_length)
+  M2 decompress: the 00 00 ff ff tail is not re-appended                               -> C14.messages_received
+  M3 decompress: fresh inflater for every message although context takeover is agreed  -> C14.messages_received
+  M4 _receive_frame: _fragmented_message_buffer not cleared after the final fragment   -> C14.messages_received
+  M5 _create_compressor: negotiated max window bits ignored (always 15)                -> C14.tornado_frames_undecodable (inflate under the agreed window)
+  M6 ping handling: pong sent with an empty payload                                    -> C14.pongs
+  M7 _receive_frame: 7-bit lengths 125/126 mis-dispatched                              -> C14.messages_received
+  M8 _receive_frame: first masking key reused for later frames                         -> C14.pongs / C14.messages_received
+  DESIGN's "reset the *compressor* each message despite takeover" is an equivalent mutant for this property
+  (a persistent inflater decodes such a stream); the observable counterpart M3 (inflater) was used instead.
 """
 import hashlib
 
@@ -48,7 +57,7 @@ from vlib.httpharness import LogCapture
 from vlib.util import det_urandom
 
 PROPERTY = "C14"
-READY = False
+READY = True
 RULE = (
     "Hypothesis draws a set-up (ref_to_server / ref_to_client / pair), a deflate configuration (off; on with "
     "server/client no_context_takeover and server/client max_window_bits 9..15 where the role can negotiate "
@@ -56,7 +65,7 @@ RULE = (
     "operations: a message towards Tornado or from Tornado (text/binary; length from {0,1,125,126,127,65535,"
     "65536,70000} or 0..3000; content = repeats of a shared base (compressible, shared across messages so "
     "context takeover matters), hash-expanded incompressible bytes, or literal generated text incl. astral "
-    "characters; split points in permille incl. repeated ones = empty fragments; control frames with "
+    "characters, or an incompressible block repeated at a distance beyond small LZ77 windows; split points in permille incl. repeated ones = empty fragments; control frames with "
     "payloads in chosen gaps or in every gap; send-uncompressed flag), stand-alone pings, and in `pair` "
     "partial deliveries in either direction; plus a TCP segmentation pattern.  non-trivial = some message "
     "is >=126 bytes or fragmented or compressed AND reaches Tornado in >=2 segments; distinct = SHA-1 of the case"
@@ -70,7 +79,7 @@ ASSUMPTIONS = [
 ]
 TECHNIQUE = "property-based testing (Hypothesis): differential round trip against an independent RFC 6455/7692 codec over a harness-scheduled in-memory transport"
 LEVEL_TEXT = (
-    "bounded exploration: ~300 sessions (quick) / ~20k (thorough) of <=8 operations, messages <=70 000 bytes, "
+    "bounded exploration: ~1000 sessions (quick) / ~20k (thorough) of <=8 operations, messages <=70 000 bytes, "
     "<=200 KiB per session; no claim for longer histories or larger messages"
 )
 SHARDS = 16
@@ -91,6 +100,9 @@ content_s = st.one_of(
     st.tuples(st.just("rep"), len_s, st.integers(0, len(BASES) - 1)),
     st.tuples(st.just("raw"), len_s, st.binary(min_size=1, max_size=3)),
     st.tuples(st.just("lit"), st.text(text_chars, max_size=40)),
+    # an incompressible block repeated: matches at distance = block size, i.e. beyond small LZ77 windows
+    st.tuples(st.just("rawrep"), st.sampled_from([1300, 3000, 9000, 40000]), st.binary(min_size=1, max_size=2),
+              st.sampled_from([600, 1100, 2500, 17000])),
 )
 gap_s = st.tuples(st.integers(0, 5), st.sampled_from(["ping", "ping", "pong"]), st.binary(max_size=6) | st.sampled_from([b"p" * 125]))
 msg_s = st.fixed_dictionaries({
@@ -106,6 +118,7 @@ op_s = st.one_of(
     st.tuples(st.just("in"), msg_s),
     st.tuples(st.just("in"), msg_s),
     st.tuples(st.just("out"), msg_s),
+    st.tuples(st.just("out"), msg_s.map(lambda m: dict(m, content=("rep", 60, 1)))),   # shared content: context takeover matters
     st.tuples(st.just("ping_in"), st.binary(max_size=8)),
     st.tuples(st.just("deliver"), st.booleans(), st.integers(1, 200)),
 )
@@ -162,6 +175,11 @@ def build_payload(spec, binary):
     if kind == "rep":
         unit = BASES[spec[2]]
         data = (unit * (n // len(unit) + 1))[:n]
+    elif kind == "rawrep":
+        unit = expand(spec[2], spec[3])
+        data = (unit * (n // len(unit) + 1))[:n]
+        if not binary:
+            data = bytes(b & 0x7F or 0x41 for b in data)
     else:
         data = expand(spec[2], n)
         if not binary:
@@ -553,5 +571,5 @@ PARTS = {"main": run_case, "wbits8": run_wbits8}
 
 def main(ctx):
     ctx.run_replays(PARTS)
-    ctx.explore(case_s, run_case, ctx.n(1200, 20000), name="main")
+    ctx.explore(case_s, run_case, ctx.n(1000, 20000), name="main")
     ctx.explore(wbits8_case_s, run_wbits8, ctx.n(16, 200), name="wbits8")
